@@ -11,6 +11,7 @@ import (
 	"unsafe"
 
 	"github.com/bytemare/secp256k1"
+	"github.com/bytemare/secp256k1/internal/field"
 	"github.com/bytemare/secp256k1/zz_verif/gen"
 	"github.com/bytemare/secp256k1/zz_verif/mon"
 	"github.com/bytemare/secp256k1/zz_verif/oracle"
@@ -46,7 +47,7 @@ var (
 	c15Layouts   = []string{"exact", "spare1", "spare8", "spare64", "interior", "page-end", "zero-len"}
 	c15HashFns   = []string{"HashToGroup", "EncodeToGroup", "HashToScalar"}
 	c15DataFns   = []string{"Element.Decode", "Element.DecodeCompressed", "Element.DecodeUncompressed", "Element.UnmarshalBinary", "Scalar.Decode", "Scalar.UnmarshalBinary"}
-	c15PtrFns    = []string{"Element.Add", "Element.Subtract", "Element.Equal", "Element.Set", "Element.Multiply", "Scalar.Add", "Scalar.Subtract", "Scalar.Multiply", "Scalar.Set", "Scalar.Pow", "Scalar.Equal", "Scalar.LessOrEqual", "Scalar.CSelect"}
+	c15PtrFns    = []string{"Element.Add", "Element.Subtract", "Element.Equal", "Element.Set", "Element.Multiply", "Scalar.Add", "Scalar.Subtract", "Scalar.Multiply", "Scalar.Set", "Scalar.Pow", "Scalar.Equal", "Scalar.LessOrEqual", "Scalar.CSelect", "SSWU"}
 	c15RetainFns = []string{"Element.Decode", "Element.DecodeCompressed", "Element.DecodeUncompressed", "Element.UnmarshalBinary", "Element.DecodeHex", "Scalar.Decode", "Scalar.UnmarshalBinary"}
 	c15FreshFns  = []string{"Element.Encode", "Element.EncodeUncompressed", "Element.XCoordinate", "Element.MarshalBinary", "Scalar.Encode", "Scalar.MarshalBinary", "Order", "constructors", "Element.Copy", "Scalar.Copy", "Scalar.Bits"}
 )
@@ -219,7 +220,7 @@ func c15Generate(c *mon.Ctx) {
 		}
 
 		for j, fn := range c15PtrFns {
-			if len(fn) > 7 && fn[:7] == "Scalar." || fn == "Element.Multiply" {
+			if len(fn) > 7 && fn[:7] == "Scalar." || fn == "Element.Multiply" || fn == "SSWU" {
 				e, ea := mon.MkElemCase(pv, reprs[0]), mon.MkElemCase(other, oreprs[0])
 				mode := []string{"trap", "canary"}[(i+j)%2]
 				cs := &c15Case{Kind: "ptr", Fn: fn, Mode: mode, E: &e, EA: &ea, S: svals[(i+j)%len(svals)], SA: fmt.Sprintf("%x", i*7+j), SB: fmt.Sprintf("%x", j+1), U: uint64(j), NonCanon: true}
@@ -546,14 +547,26 @@ func c15RunPtr(c *mon.Ctx, cs *c15Case) {
 		sa, sb *secp256k1.Scalar
 	)
 
+	var fu *field.Element // the field-element argument of the exported map function
+
 	if cs.Mode == "trap" {
 		g.Unprotect()
 		ea = (*secp256k1.Element)(g.Ptr(256))
 		sa = (*secp256k1.Scalar)(g.Ptr(1024))
 		sb = (*secp256k1.Scalar)(g.Ptr(2048))
+		fu = (*field.Element)(g.Ptr(3072))
 	} else {
-		ea, sa, sb = secp256k1.NewElement(), secp256k1.NewScalar(), secp256k1.NewScalar()
+		ea, sa, sb, fu = secp256k1.NewElement(), secp256k1.NewScalar(), secp256k1.NewScalar(), field.New()
 	}
+
+	// u: the scalar argument's value read as a field element; 0 and the two other exceptional inputs every few cases
+	uv := oracle.Mod(mon.BigH(cs.SA), oracle.P)
+	if cs.U%5 == 3 {
+		uv = new(big.Int)
+	}
+
+	fu.E = oracle.ToMont(uv, oracle.P)
+	fub := fu.E
 
 	x, y, z := cs.EA.R.Repr().Coords(cs.EA.P.Pt())
 	secp256k1.VSetRaw(ea, oracle.ToMont(x, oracle.P), oracle.ToMont(y, oracle.P), oracle.ToMont(z, oracle.P))
@@ -608,6 +621,9 @@ func c15RunPtr(c *mon.Ctx, cs *c15Case) {
 			s.LessOrEqual(sa)
 		case "Scalar.CSelect":
 			_ = s.CSelect(cs.U, sa, sb)
+		case "SSWU":
+			q := secp256k1.SSWU(fu)
+			secp256k1.IsogenySecp256k13iso(q).Add(secp256k1.Base())
 		default:
 			panic("harness: unknown fn " + cs.Fn)
 		}
@@ -649,10 +665,17 @@ func c15RunPtr(c *mon.Ctx, cs *c15Case) {
 			obj = fmt.Sprintf("the first *Scalar argument, byte %d", off-1024)
 		case off >= 2048 && off < 2048+32:
 			obj = fmt.Sprintf("the second *Scalar argument, byte %d", off-2048)
+		case off >= 3072 && off < 3072+32:
+			obj = fmt.Sprintf("the *field.Element argument, byte %d", off-3072)
 		}
 
 		c.Fail(fmt.Sprintf("%s stored into %s; writer: %s", cs.Fn, obj, f.Writer), "write-to-argument:"+cs.Fn, map[string]any{"stack": f.Stack})
 
+		return
+	}
+
+	if fu.E != fub {
+		c.Fail(fmt.Sprintf("%s changed the stored limbs of its field-element argument u = %x: now %x", cs.Fn, uv, oracle.FromMont(fu.E, oracle.P)), "write-to-argument:"+cs.Fn, nil)
 		return
 	}
 
